@@ -108,6 +108,7 @@ def _native_replay_extract(sc: Scratch, script_path: Path, log_path: Path) -> tu
         target.write_text(src + "\n" + (XDIR / "replay_native.rs").read_text())
     env = env_offline()
     env["VERIF_C15X_SCRIPT"] = str(Path(script_path).resolve())
+    env["RUSTFLAGS"] = "--cfg verif_replay"
     env["CARGO_TARGET_DIR"] = str(CACHE / "target-native-pavex")
     p = subprocess.run(["cargo", "test", "--offline", "-p", "pavex", "--lib", "verif_replay_c15x", "--", "--nocapture", "--test-threads", "1"],
                        cwd=sc.repo, env=env, stdout=subprocess.PIPE, stderr=subprocess.STDOUT, text=True)
